@@ -296,7 +296,7 @@ func runC12(a *Analyzer, r *Results) {
 					if len(bad) > 0 && exposed {
 						why = "the drain is reachable from an event loop arm without a recover boundary, and the replayed message reaches decoders unprotected: " + bad[0]
 					}
-					r.Check("R1.cache", pr, "cached (future-height) messages are untrusted bytes decoded lazily: their replay reaches decoders only through a recovering function, unless every way into the drain already passes one", "ConsumeCacheMessages|"+calleeLabel(ci.Common()), a.P.InstrPos(in), len(bad) == 0 || !exposed, why, "R")
+					r.Check("R1.cache", props("C12", "C17"), "cached (future-height) messages are untrusted bytes decoded lazily: their replay reaches decoders only through a recovering function, unless every way into the drain already passes one", "ConsumeCacheMessages|"+calleeLabel(ci.Common()), a.P.InstrPos(in), len(bad) == 0 || !exposed, why, "R")
 				}
 			}
 		}
